@@ -29,26 +29,29 @@ Definition tag_of (p : option await) : pctag :=
 Record ast := mkAst { x_pc : pctag; x_cs : sst; x_ss : sst; x_m : mstate;
                       x_up : bool; x_ab : bool; x_rqe : bool; x_rqf : bool; x_rsf : bool;
                       x_live : bool; x_rs : bool; x_rq : bool;
+                      x_qb : bool (* request_body_buf not empty *); x_pb : bool (* response_body_buf not empty *);
                       x_tun : bool; x_cr : bool; x_ve : bool; x_vg : bool }.
 Definition abs (s : stream) : ast :=
   mkAst (tag_of (pc s)) (cs s) (ss s) (msum s) (upstream s) (aborted s) (reqerr_h s) (req_fin s) (resp_fin s)
-        (live s) (req_stream s) (is_some (req s)) (tunnel s) (crashed s) (venv s) (vgap s).
-Definition sx_pc (v : pctag) (s : ast) : ast := {| x_pc := v; x_cs := x_cs s; x_ss := x_ss s; x_m := x_m s; x_up := x_up s; x_ab := x_ab s; x_rqe := x_rqe s; x_rqf := x_rqf s; x_rsf := x_rsf s; x_live := x_live s; x_rs := x_rs s; x_rq := x_rq s; x_tun := x_tun s; x_cr := x_cr s; x_ve := x_ve s; x_vg := x_vg s |}.
-Definition sx_cs (v : sst) (s : ast) : ast := {| x_pc := x_pc s; x_cs := v; x_ss := x_ss s; x_m := x_m s; x_up := x_up s; x_ab := x_ab s; x_rqe := x_rqe s; x_rqf := x_rqf s; x_rsf := x_rsf s; x_live := x_live s; x_rs := x_rs s; x_rq := x_rq s; x_tun := x_tun s; x_cr := x_cr s; x_ve := x_ve s; x_vg := x_vg s |}.
-Definition sx_ss (v : sst) (s : ast) : ast := {| x_pc := x_pc s; x_cs := x_cs s; x_ss := v; x_m := x_m s; x_up := x_up s; x_ab := x_ab s; x_rqe := x_rqe s; x_rqf := x_rqf s; x_rsf := x_rsf s; x_live := x_live s; x_rs := x_rs s; x_rq := x_rq s; x_tun := x_tun s; x_cr := x_cr s; x_ve := x_ve s; x_vg := x_vg s |}.
-Definition sx_m (v : mstate) (s : ast) : ast := {| x_pc := x_pc s; x_cs := x_cs s; x_ss := x_ss s; x_m := v; x_up := x_up s; x_ab := x_ab s; x_rqe := x_rqe s; x_rqf := x_rqf s; x_rsf := x_rsf s; x_live := x_live s; x_rs := x_rs s; x_rq := x_rq s; x_tun := x_tun s; x_cr := x_cr s; x_ve := x_ve s; x_vg := x_vg s |}.
-Definition sx_up (v : bool) (s : ast) : ast := {| x_pc := x_pc s; x_cs := x_cs s; x_ss := x_ss s; x_m := x_m s; x_up := v; x_ab := x_ab s; x_rqe := x_rqe s; x_rqf := x_rqf s; x_rsf := x_rsf s; x_live := x_live s; x_rs := x_rs s; x_rq := x_rq s; x_tun := x_tun s; x_cr := x_cr s; x_ve := x_ve s; x_vg := x_vg s |}.
-Definition sx_ab (v : bool) (s : ast) : ast := {| x_pc := x_pc s; x_cs := x_cs s; x_ss := x_ss s; x_m := x_m s; x_up := x_up s; x_ab := v; x_rqe := x_rqe s; x_rqf := x_rqf s; x_rsf := x_rsf s; x_live := x_live s; x_rs := x_rs s; x_rq := x_rq s; x_tun := x_tun s; x_cr := x_cr s; x_ve := x_ve s; x_vg := x_vg s |}.
-Definition sx_rqe (v : bool) (s : ast) : ast := {| x_pc := x_pc s; x_cs := x_cs s; x_ss := x_ss s; x_m := x_m s; x_up := x_up s; x_ab := x_ab s; x_rqe := v; x_rqf := x_rqf s; x_rsf := x_rsf s; x_live := x_live s; x_rs := x_rs s; x_rq := x_rq s; x_tun := x_tun s; x_cr := x_cr s; x_ve := x_ve s; x_vg := x_vg s |}.
-Definition sx_rqf (v : bool) (s : ast) : ast := {| x_pc := x_pc s; x_cs := x_cs s; x_ss := x_ss s; x_m := x_m s; x_up := x_up s; x_ab := x_ab s; x_rqe := x_rqe s; x_rqf := v; x_rsf := x_rsf s; x_live := x_live s; x_rs := x_rs s; x_rq := x_rq s; x_tun := x_tun s; x_cr := x_cr s; x_ve := x_ve s; x_vg := x_vg s |}.
-Definition sx_rsf (v : bool) (s : ast) : ast := {| x_pc := x_pc s; x_cs := x_cs s; x_ss := x_ss s; x_m := x_m s; x_up := x_up s; x_ab := x_ab s; x_rqe := x_rqe s; x_rqf := x_rqf s; x_rsf := v; x_live := x_live s; x_rs := x_rs s; x_rq := x_rq s; x_tun := x_tun s; x_cr := x_cr s; x_ve := x_ve s; x_vg := x_vg s |}.
-Definition sx_live (v : bool) (s : ast) : ast := {| x_pc := x_pc s; x_cs := x_cs s; x_ss := x_ss s; x_m := x_m s; x_up := x_up s; x_ab := x_ab s; x_rqe := x_rqe s; x_rqf := x_rqf s; x_rsf := x_rsf s; x_live := v; x_rs := x_rs s; x_rq := x_rq s; x_tun := x_tun s; x_cr := x_cr s; x_ve := x_ve s; x_vg := x_vg s |}.
-Definition sx_rs (v : bool) (s : ast) : ast := {| x_pc := x_pc s; x_cs := x_cs s; x_ss := x_ss s; x_m := x_m s; x_up := x_up s; x_ab := x_ab s; x_rqe := x_rqe s; x_rqf := x_rqf s; x_rsf := x_rsf s; x_live := x_live s; x_rs := v; x_rq := x_rq s; x_tun := x_tun s; x_cr := x_cr s; x_ve := x_ve s; x_vg := x_vg s |}.
-Definition sx_rq (v : bool) (s : ast) : ast := {| x_pc := x_pc s; x_cs := x_cs s; x_ss := x_ss s; x_m := x_m s; x_up := x_up s; x_ab := x_ab s; x_rqe := x_rqe s; x_rqf := x_rqf s; x_rsf := x_rsf s; x_live := x_live s; x_rs := x_rs s; x_rq := v; x_tun := x_tun s; x_cr := x_cr s; x_ve := x_ve s; x_vg := x_vg s |}.
-Definition sx_tun (v : bool) (s : ast) : ast := {| x_pc := x_pc s; x_cs := x_cs s; x_ss := x_ss s; x_m := x_m s; x_up := x_up s; x_ab := x_ab s; x_rqe := x_rqe s; x_rqf := x_rqf s; x_rsf := x_rsf s; x_live := x_live s; x_rs := x_rs s; x_rq := x_rq s; x_tun := v; x_cr := x_cr s; x_ve := x_ve s; x_vg := x_vg s |}.
-Definition sx_cr (v : bool) (s : ast) : ast := {| x_pc := x_pc s; x_cs := x_cs s; x_ss := x_ss s; x_m := x_m s; x_up := x_up s; x_ab := x_ab s; x_rqe := x_rqe s; x_rqf := x_rqf s; x_rsf := x_rsf s; x_live := x_live s; x_rs := x_rs s; x_rq := x_rq s; x_tun := x_tun s; x_cr := v; x_ve := x_ve s; x_vg := x_vg s |}.
-Definition sx_ve (v : bool) (s : ast) : ast := {| x_pc := x_pc s; x_cs := x_cs s; x_ss := x_ss s; x_m := x_m s; x_up := x_up s; x_ab := x_ab s; x_rqe := x_rqe s; x_rqf := x_rqf s; x_rsf := x_rsf s; x_live := x_live s; x_rs := x_rs s; x_rq := x_rq s; x_tun := x_tun s; x_cr := x_cr s; x_ve := v; x_vg := x_vg s |}.
-Definition sx_vg (v : bool) (s : ast) : ast := {| x_pc := x_pc s; x_cs := x_cs s; x_ss := x_ss s; x_m := x_m s; x_up := x_up s; x_ab := x_ab s; x_rqe := x_rqe s; x_rqf := x_rqf s; x_rsf := x_rsf s; x_live := x_live s; x_rs := x_rs s; x_rq := x_rq s; x_tun := x_tun s; x_cr := x_cr s; x_ve := x_ve s; x_vg := v |}.
+        (live s) (req_stream s) (is_some (req s)) (negb (isnil (reqbuf s))) (negb (isnil (respbuf s))) (tunnel s) (crashed s) (venv s) (vgap s).
+Definition sx_pc (v : pctag) (s : ast) : ast := {| x_pc := v; x_cs := x_cs s; x_ss := x_ss s; x_m := x_m s; x_up := x_up s; x_ab := x_ab s; x_rqe := x_rqe s; x_rqf := x_rqf s; x_rsf := x_rsf s; x_live := x_live s; x_rs := x_rs s; x_rq := x_rq s; x_qb := x_qb s; x_pb := x_pb s; x_tun := x_tun s; x_cr := x_cr s; x_ve := x_ve s; x_vg := x_vg s |}.
+Definition sx_cs (v : sst) (s : ast) : ast := {| x_pc := x_pc s; x_cs := v; x_ss := x_ss s; x_m := x_m s; x_up := x_up s; x_ab := x_ab s; x_rqe := x_rqe s; x_rqf := x_rqf s; x_rsf := x_rsf s; x_live := x_live s; x_rs := x_rs s; x_rq := x_rq s; x_qb := x_qb s; x_pb := x_pb s; x_tun := x_tun s; x_cr := x_cr s; x_ve := x_ve s; x_vg := x_vg s |}.
+Definition sx_ss (v : sst) (s : ast) : ast := {| x_pc := x_pc s; x_cs := x_cs s; x_ss := v; x_m := x_m s; x_up := x_up s; x_ab := x_ab s; x_rqe := x_rqe s; x_rqf := x_rqf s; x_rsf := x_rsf s; x_live := x_live s; x_rs := x_rs s; x_rq := x_rq s; x_qb := x_qb s; x_pb := x_pb s; x_tun := x_tun s; x_cr := x_cr s; x_ve := x_ve s; x_vg := x_vg s |}.
+Definition sx_m (v : mstate) (s : ast) : ast := {| x_pc := x_pc s; x_cs := x_cs s; x_ss := x_ss s; x_m := v; x_up := x_up s; x_ab := x_ab s; x_rqe := x_rqe s; x_rqf := x_rqf s; x_rsf := x_rsf s; x_live := x_live s; x_rs := x_rs s; x_rq := x_rq s; x_qb := x_qb s; x_pb := x_pb s; x_tun := x_tun s; x_cr := x_cr s; x_ve := x_ve s; x_vg := x_vg s |}.
+Definition sx_up (v : bool) (s : ast) : ast := {| x_pc := x_pc s; x_cs := x_cs s; x_ss := x_ss s; x_m := x_m s; x_up := v; x_ab := x_ab s; x_rqe := x_rqe s; x_rqf := x_rqf s; x_rsf := x_rsf s; x_live := x_live s; x_rs := x_rs s; x_rq := x_rq s; x_qb := x_qb s; x_pb := x_pb s; x_tun := x_tun s; x_cr := x_cr s; x_ve := x_ve s; x_vg := x_vg s |}.
+Definition sx_ab (v : bool) (s : ast) : ast := {| x_pc := x_pc s; x_cs := x_cs s; x_ss := x_ss s; x_m := x_m s; x_up := x_up s; x_ab := v; x_rqe := x_rqe s; x_rqf := x_rqf s; x_rsf := x_rsf s; x_live := x_live s; x_rs := x_rs s; x_rq := x_rq s; x_qb := x_qb s; x_pb := x_pb s; x_tun := x_tun s; x_cr := x_cr s; x_ve := x_ve s; x_vg := x_vg s |}.
+Definition sx_rqe (v : bool) (s : ast) : ast := {| x_pc := x_pc s; x_cs := x_cs s; x_ss := x_ss s; x_m := x_m s; x_up := x_up s; x_ab := x_ab s; x_rqe := v; x_rqf := x_rqf s; x_rsf := x_rsf s; x_live := x_live s; x_rs := x_rs s; x_rq := x_rq s; x_qb := x_qb s; x_pb := x_pb s; x_tun := x_tun s; x_cr := x_cr s; x_ve := x_ve s; x_vg := x_vg s |}.
+Definition sx_rqf (v : bool) (s : ast) : ast := {| x_pc := x_pc s; x_cs := x_cs s; x_ss := x_ss s; x_m := x_m s; x_up := x_up s; x_ab := x_ab s; x_rqe := x_rqe s; x_rqf := v; x_rsf := x_rsf s; x_live := x_live s; x_rs := x_rs s; x_rq := x_rq s; x_qb := x_qb s; x_pb := x_pb s; x_tun := x_tun s; x_cr := x_cr s; x_ve := x_ve s; x_vg := x_vg s |}.
+Definition sx_rsf (v : bool) (s : ast) : ast := {| x_pc := x_pc s; x_cs := x_cs s; x_ss := x_ss s; x_m := x_m s; x_up := x_up s; x_ab := x_ab s; x_rqe := x_rqe s; x_rqf := x_rqf s; x_rsf := v; x_live := x_live s; x_rs := x_rs s; x_rq := x_rq s; x_qb := x_qb s; x_pb := x_pb s; x_tun := x_tun s; x_cr := x_cr s; x_ve := x_ve s; x_vg := x_vg s |}.
+Definition sx_live (v : bool) (s : ast) : ast := {| x_pc := x_pc s; x_cs := x_cs s; x_ss := x_ss s; x_m := x_m s; x_up := x_up s; x_ab := x_ab s; x_rqe := x_rqe s; x_rqf := x_rqf s; x_rsf := x_rsf s; x_live := v; x_rs := x_rs s; x_rq := x_rq s; x_qb := x_qb s; x_pb := x_pb s; x_tun := x_tun s; x_cr := x_cr s; x_ve := x_ve s; x_vg := x_vg s |}.
+Definition sx_rs (v : bool) (s : ast) : ast := {| x_pc := x_pc s; x_cs := x_cs s; x_ss := x_ss s; x_m := x_m s; x_up := x_up s; x_ab := x_ab s; x_rqe := x_rqe s; x_rqf := x_rqf s; x_rsf := x_rsf s; x_live := x_live s; x_rs := v; x_rq := x_rq s; x_qb := x_qb s; x_pb := x_pb s; x_tun := x_tun s; x_cr := x_cr s; x_ve := x_ve s; x_vg := x_vg s |}.
+Definition sx_rq (v : bool) (s : ast) : ast := {| x_pc := x_pc s; x_cs := x_cs s; x_ss := x_ss s; x_m := x_m s; x_up := x_up s; x_ab := x_ab s; x_rqe := x_rqe s; x_rqf := x_rqf s; x_rsf := x_rsf s; x_live := x_live s; x_rs := x_rs s; x_rq := v; x_qb := x_qb s; x_pb := x_pb s; x_tun := x_tun s; x_cr := x_cr s; x_ve := x_ve s; x_vg := x_vg s |}.
+Definition sx_qb (v : bool) (s : ast) : ast := {| x_pc := x_pc s; x_cs := x_cs s; x_ss := x_ss s; x_m := x_m s; x_up := x_up s; x_ab := x_ab s; x_rqe := x_rqe s; x_rqf := x_rqf s; x_rsf := x_rsf s; x_live := x_live s; x_rs := x_rs s; x_rq := x_rq s; x_qb := v; x_pb := x_pb s; x_tun := x_tun s; x_cr := x_cr s; x_ve := x_ve s; x_vg := x_vg s |}.
+Definition sx_pb (v : bool) (s : ast) : ast := {| x_pc := x_pc s; x_cs := x_cs s; x_ss := x_ss s; x_m := x_m s; x_up := x_up s; x_ab := x_ab s; x_rqe := x_rqe s; x_rqf := x_rqf s; x_rsf := x_rsf s; x_live := x_live s; x_rs := x_rs s; x_rq := x_rq s; x_qb := x_qb s; x_pb := v; x_tun := x_tun s; x_cr := x_cr s; x_ve := x_ve s; x_vg := x_vg s |}.
+Definition sx_tun (v : bool) (s : ast) : ast := {| x_pc := x_pc s; x_cs := x_cs s; x_ss := x_ss s; x_m := x_m s; x_up := x_up s; x_ab := x_ab s; x_rqe := x_rqe s; x_rqf := x_rqf s; x_rsf := x_rsf s; x_live := x_live s; x_rs := x_rs s; x_rq := x_rq s; x_qb := x_qb s; x_pb := x_pb s; x_tun := v; x_cr := x_cr s; x_ve := x_ve s; x_vg := x_vg s |}.
+Definition sx_cr (v : bool) (s : ast) : ast := {| x_pc := x_pc s; x_cs := x_cs s; x_ss := x_ss s; x_m := x_m s; x_up := x_up s; x_ab := x_ab s; x_rqe := x_rqe s; x_rqf := x_rqf s; x_rsf := x_rsf s; x_live := x_live s; x_rs := x_rs s; x_rq := x_rq s; x_qb := x_qb s; x_pb := x_pb s; x_tun := x_tun s; x_cr := v; x_ve := x_ve s; x_vg := x_vg s |}.
+Definition sx_ve (v : bool) (s : ast) : ast := {| x_pc := x_pc s; x_cs := x_cs s; x_ss := x_ss s; x_m := x_m s; x_up := x_up s; x_ab := x_ab s; x_rqe := x_rqe s; x_rqf := x_rqf s; x_rsf := x_rsf s; x_live := x_live s; x_rs := x_rs s; x_rq := x_rq s; x_qb := x_qb s; x_pb := x_pb s; x_tun := x_tun s; x_cr := x_cr s; x_ve := v; x_vg := x_vg s |}.
+Definition sx_vg (v : bool) (s : ast) : ast := {| x_pc := x_pc s; x_cs := x_cs s; x_ss := x_ss s; x_m := x_m s; x_up := x_up s; x_ab := x_ab s; x_rqe := x_rqe s; x_rqf := x_rqf s; x_rsf := x_rsf s; x_live := x_live s; x_rs := x_rs s; x_rq := x_rq s; x_qb := x_qb s; x_pb := x_pb s; x_tun := x_tun s; x_cr := x_cr s; x_ve := x_ve s; x_vg := v |}.
 (* ---------- abstract interpreter (set-valued) *)
 Definition a_crash (a : ast) : list ast := [sx_cr true a].
 Definition a_emit_hook (h : hook) (t : pctag) (a : ast) : ast := sx_pc t (sx_m (mon_step (x_m a) h) a).
@@ -82,14 +85,17 @@ Definition a_start_request_stream (late : bool) (a : ast) : list ast :=
 Definition a_resume_conn_stream (late ok : bool) (a : ast) : list ast :=
   if ok then
     let a1 := sx_cs SStreamReq (sx_up true a) in
-    [if late then a1 else sx_ss SWaitRespH a1]
+    if late then [a1; sx_qb true a1] else [sx_ss SWaitRespH a1]
   else a_handle_perr false (if late then AfStreamLate else AfStreamHdr) a.
 Definition a_resume_conn_consume (ok : bool) (a : ast) : list ast :=
   if ok then [sx_up true a] else a_handle_perr false AfConsume a.
 (* (stop, state) *)
 Definition a_cbs_req (a : ast) : list (bool * ast) :=
-  (false, a) :: (true, a_emit_hook HkError PBsReq2 a) :: (true, a_emit_hook HkReqHeaders PBsReq1 a)
-  :: (false, sx_rs true a) :: map (fun x => (true, x)) (a_start_request_stream true (sx_rs true a)).
+  (false, a) ::
+  (if x_qb a
+   then (true, a_emit_hook HkError PBsReq2 a)
+        :: map (fun x => (true, x)) (a_start_request_stream true (sx_qb false (sx_rs true a)))
+   else [(true, a_emit_hook HkReqHeaders PBsReq1 a); (false, sx_rs true a)]).
 Definition a_state_wait_req_headers (inval connect hashost es : bool) (a0 : ast) : list ast :=
   let a := sx_live true (sx_rq true a0) in
   if inval then [a_emit_hook HkReqHeaders PInvReq1 a]
@@ -100,28 +106,31 @@ Definition a_state_wait_req_headers (inval connect hashost es : bool) (a0 : ast)
 Definition a_cont_req_headers (es : bool) (a : ast) : list ast :=
   a_emit_hook HkError PKilled a ::
   (if x_rs a && negb es then a_start_request_stream false a else [sx_ss SWaitRespH (sx_cs SConsumeReq a)]).
-Inductive aev := AReqHeaders (inval connect hashost es : bool) | AReqData | AReqEOM | AReqErr
-               | ARespHeaders (inval es : bool) | ARespData | ARespEOM | ARespErr.
+Inductive aev := AReqHeaders (inval connect hashost es : bool) | AReqData (ne : bool) | AReqEOM | AReqErr
+               | ARespHeaders (inval es : bool) | ARespData (ne : bool) | ARespEOM | ARespErr.
 Definition a_state_consume_req (e : aev) (a : ast) : list ast :=
   match e with
-  | AReqData => map snd (a_cbs_req a)
-  | AReqEOM => [a_emit_hook HkRequest PReq (sx_cs SDone a)]
+  | AReqData ne => map snd (a_cbs_req (sx_qb (x_qb a || ne) a))
+  | AReqEOM => [a_emit_hook HkRequest PReq (sx_cs SDone (sx_qb false a))]
   | _ => a_crash a
   end.
 Definition a_cont_req (a : ast) : list ast :=
   [a_emit_hook HkError PKilled a; a_emit_hook HkRespHeaders PRespHSet a; sx_pc PConnConsume a].
 Definition a_state_stream_req (e : aev) (a : ast) : list ast :=
   match e with
-  | AReqData => [a]
-  | AReqEOM => [a_emit_hook HkRequest PReqStream a]
+  | AReqData ne => [a; sx_qb (x_qb a || ne) a]
+  | AReqEOM => [a_emit_hook HkRequest PReqStream a; a_emit_hook HkRequest PReqStream (sx_qb false a)]
   | _ => a_crash a
   end.
 Definition a_cont_req_stream (a : ast) : list ast :=
   let a1 := sx_cs SDone a in if sst_eqb (x_ss a1) SDone then a_flow_done a1 else [a1].
 Definition a_start_response_stream (a : ast) : list ast := [sx_cr true a; sx_ss SStreamResp a].
 Definition a_cbs_resp (a : ast) : list (bool * ast) :=
-  (false, a) :: (true, a_emit_hook HkError PBsResp2 a) :: (true, a_emit_hook HkRespHeaders PBsResp1 a)
-  :: map (fun x => (true, x)) (a_start_response_stream a).
+  (false, a) ::
+  (if x_pb a
+   then (true, a_emit_hook HkError PBsResp2 a)
+        :: flat_map (fun x => [(true, x); (true, sx_pb true x)]) (a_start_response_stream (sx_pb false a))
+   else [(true, a_emit_hook HkRespHeaders PBsResp1 a)]).
 Definition a_state_wait_resp_headers (inval es : bool) (a : ast) : list ast :=
   flat_map (fun p : bool * ast =>
               if fst p then [snd p]
@@ -132,27 +141,28 @@ Definition a_cont_resp_headers (es : bool) (a : ast) : list ast :=
   a_emit_hook HkError PKilled a :: sx_ss SConsumeResp a :: (if es then [] else a_start_response_stream a).
 Definition a_state_consume_resp (e : aev) (a : ast) : list ast :=
   match e with
-  | ARespData => map snd (a_cbs_resp a)
-  | ARespEOM => a_send_response false a
+  | ARespData ne => map snd (a_cbs_resp (sx_pb (x_pb a || ne) a))
+  | ARespEOM => a_send_response false (sx_pb false a)
   | _ => a_crash a
   end.
 Definition a_state_stream_resp (e : aev) (a : ast) : list ast :=
   sx_cr true a ::
   match e with
-  | ARespData => [a]
-  | ARespEOM => a_send_response true a
+  | ARespData ne => [a; sx_pb (x_pb a || ne) a]
+  | ARespEOM => a_send_response true a ++ a_send_response true (sx_pb false a)
   | _ => a_crash a
   end.
 Definition a_cont_connect (a : ast) : list ast := [a_finish_killed a; sx_tun true a].
 
 Definition aev_req_side (e : aev) : bool :=
-  match e with AReqHeaders _ _ _ _ | AReqData | AReqEOM | AReqErr => true | _ => false end.
+  match e with AReqHeaders _ _ _ _ | AReqData _ | AReqEOM | AReqErr => true | _ => false end.
 Definition aev_first (e : aev) : bool := match e with AReqHeaders _ _ _ _ => true | _ => false end.
 Definition a_note_event (e : aev) (a : ast) : ast :=
   let fresh := sst_eqb (x_cs a) SWaitReqH && negb (x_rq a) in
   let bad_env := (fresh && negb (aev_first e)) || (negb fresh && aev_first e)
                  || (negb (aev_req_side e) && negb (x_up a))
-                 || (aev_req_side e && x_rqe a) in
+                 || (aev_req_side e && x_rqe a)
+                 || match e with AReqData false | ARespData false => true | _ => false end in
   let a1 := if bad_env then sx_ve true a else a in
   let a2 := if negb (aev_req_side e) && x_ab a then sx_vg true a1 else a1 in
   match e with
@@ -166,7 +176,7 @@ Definition a_run_event (e : aev) (a0 : ast) : list ast :=
   match e with
   | AReqErr => a_handle_perr true AfNone a
   | ARespErr => a_handle_perr false AfNone a
-  | AReqHeaders _ _ _ _ | AReqData | AReqEOM =>
+  | AReqHeaders _ _ _ _ | AReqData _ | AReqEOM =>
       match x_cs a with
       | SErrored => [a]
       | SWaitReqH => match e with AReqHeaders i c h es => a_state_wait_req_headers i c h es a | _ => a_crash a end
@@ -174,7 +184,7 @@ Definition a_run_event (e : aev) (a0 : ast) : list ast :=
       | SStreamReq => a_state_stream_req e a
       | _ => a_crash a
       end
-  | ARespHeaders _ _ | ARespData | ARespEOM =>
+  | ARespHeaders _ _ | ARespData _ | ARespEOM =>
       match x_ss a with
       | SErrored => [a]
       | SWaitRespH => match e with ARespHeaders i es => a_state_wait_resp_headers i es a | _ => a_crash a end
@@ -211,7 +221,7 @@ Definition a_apply_act (a : ast) : list ast := [a; sx_live false a; sx_rs true a
 Definition aev_of (o : opts) (e : hev) : aev :=
   match e with
   | EReqHeaders h es => AReqHeaders (o_val o && negb (h_valid h)) (meth_eqb (h_meth h) MConnect) (h_hashost h) es
-  | EReqData _ => AReqData | EReqEOM => AReqEOM | EReqErr _ => AReqErr
+  | EReqData d => AReqData (negb (isnil d)) | EReqEOM => AReqEOM | EReqErr _ => AReqErr
   | ERespHeaders h es => ARespHeaders (o_val o && negb (h_valid h)) es
-  | ERespData _ => ARespData | ERespEOM => ARespEOM | ERespErr _ => ARespErr
+  | ERespData d => ARespData (negb (isnil d)) | ERespEOM => ARespEOM | ERespErr _ => ARespErr
   end.
